@@ -3,7 +3,7 @@ from jobs.C07 import UNITS, EXTRA, FS, TYPES, NODES, CUT_CLIENT, RB_CLIENT, cuts
 
 META = {
     "bounds": "C08-S1: one submission through coap_send_internal (CON and NON) from every state nstart 1..4, con_active 0..nstart, "
-              "session established or not, 0 or 1 message already held; C08-S2: coap_session_connected draining 1..3 held messages "
+              "session established or not, 0 or 1 message already held; C08-S3 also for a Reset that answers the keep-alive ping; C08-S5: cancel-by-token with NSTART 2..3; C08-S2: coap_session_connected draining 1..3 held messages "
               "(every CON/NON pattern) for every nstart/con_active; completion events: empty ACK/RST through coap_dispatch with the "
               "queue holding the matching request, a request with another mid, or none (con_active bookkeeping); give-up in "
               "coap_retransmit (C06-S2).",
@@ -37,6 +37,15 @@ def jobs():
                           timeout=900, est_gb=3,
                           desc="empty %s through coap_dispatch, queue: %s: NSTART slot freed exactly when a Confirmable in flight completes" % (tn.upper(), NODES[node]),
                           bounds={"type": tn, "queue": NODES[node]}))
+    for ns in (2, 3):
+      js.append(Job("S5-cancel-by-token@nstart%d" % ns, "C07/c07.c", "c08_s5_cancel_by_token", UNITS, extra_src=EXTRA, defines=CUT_CLIENT + ["NSTART_C=%d" % ns], remove_bodies=RB_CLIENT, unwind=18, flags=FS,
+                  group="S5-cancel-by-token", timeout=900, est_gb=3,
+                  desc="coap_cancel_all_messages with NSTART %d, two Confirmables in flight%s: the freed slot goes to the held one" % (ns, " and one held" if ns == 2 else ""),
+                  bounds={"nstart": ns, "in flight": 2, "held": 1 if ns == 2 else 0}))
+    js.append(Job("S3-completion@rst-ping", "C07/c07.c", "c07_s1_response", UNITS, extra_src=EXTRA,
+                  defines=["RTYPE=%d" % TYPES["rst"], "RCODE=0", "NODE=1", "PING_NODE"] + cuts(False)[0], remove_bodies=cuts(False)[1], unwind=18, flags=FS,
+                  group="S3-completion", timeout=900, est_gb=3,
+                  desc="RST answering the session's keep-alive ping (pong): the ping's NSTART slot is freed, no NACK", bounds={"type": "rst", "queue": "keep-alive ping"}))
     for nheld in (0, 1, 2, 3):
         js.append(Job("S4-session-failure@held%d" % nheld, "C07/c07.c", "c08_s4_session_failure", UNITS, extra_src=EXTRA,
                       defines=["NHELD=%d" % nheld, "INFLIGHT=0", "FPROTO=1"] + CUT_CLIENT, remove_bodies=RB_CLIENT, unwind=18, flags=FS, group="S4-session-failure",
